@@ -91,7 +91,7 @@ func genLegacyLayout(t *rapid.T, root, repo string, simpleOnly bool) *legacyLayo
 	cfg := l.blob("sha256", []byte("{}"))
 	layer := l.blob("sha256", []byte("legacy layer"))
 	// subjects
-	nsub := rapid.IntRange(1, 4).Draw(t, "nSubjects")
+	nsub := rapid.SampledFrom([]int{1, 2, 2, 3, 3, 4}).Draw(t, "nSubjects")
 	for i := 0; i < nsub; i++ {
 		alg := rapid.SampledFrom([]string{"sha256", "sha256", "sha256", "sha512"}).Draw(t, "subjectAlg")
 		raw, _ := buildImage(mtImage, mtConfig, cfg, 2, []string{layer}, []int{12}, nil, "", map[string]string{"subject": fmt.Sprint(i)})
@@ -106,7 +106,7 @@ func genLegacyLayout(t *rapid.T, root, repo string, simpleOnly bool) *legacyLayo
 		l.subjects = append(l.subjects, d)
 	}
 	// referrer manifests
-	nart := rapid.IntRange(0, 6).Draw(t, "nArtifacts")
+	nart := rapid.SampledFrom([]int{0, 1, 2, 3, 4, 5, 6, 7}).Draw(t, "nArtifacts")
 	for i := 0; i < nart; i++ {
 		sd := rapid.SampledFrom(l.subjects).Draw(t, "artifactSubject")
 		at := rapid.SampledFrom([]string{"", "application/vnd.x.a", "application/vnd.x.b"}).Draw(t, "artifactType")
@@ -145,7 +145,7 @@ func genLegacyLayout(t *rapid.T, root, repo string, simpleOnly bool) *legacyLayo
 	}
 	// fallback indexes, one per subject at most (tags are unique)
 	for si, sd := range l.subjects {
-		if len(l.arts) == 0 || rapid.IntRange(0, 3).Draw(t, "hasFallback") == 0 {
+		if len(l.arts) == 0 || rapid.IntRange(0, 5).Draw(t, "hasFallback") == 0 {
 			continue
 		}
 		kinds := []string{"accurate", "accurate", "stale-missing-entry", "foreign-subject-entry", "missing-blob-entry", "mixed", "wrong-fields", "empty"}
